@@ -8,7 +8,7 @@ SHADOW_DEFS = {
     "Sized": "pub trait Sized {}", "Box": "pub struct Box;", "Option": "pub enum Option {}", "Result": "pub enum Result {}",
     "std": "pub mod std {}", "own-value": "#[allow(non_snake_case)] pub fn {NAME}() {}", "EntraitT-value": "#[allow(non_upper_case_globals)] pub const EntraitT: u8 = 0;",
 }
-PROGS = ["fn", "fn-async-bounds", "fn-byvalue", "mod", "concrete", "trait-self", "trait-self-async", "trait-ref", "trait-borrow", "di-static", "di-dyn-at"]
+PROGS = ["fn", "fn-async-bounds", "fn-byvalue", "mod", "concrete", "trait-self", "trait-self-async", "trait-ref", "trait-borrow", "di-static", "di-dyn-at", "di-dyn", "di-dyn-borrow"]
 
 
 def render(prog, name, case, nostd=False):
@@ -70,6 +70,16 @@ def render(prog, name, case, nostd=False):
         if dyn:
             call = f"::vt::block_on({call})"
         run = f"let app = ::entrait::Impl::new(App); let r = ::std::format!(\"{{}}\", {call});"
+        probes = [("impl", "::entrait::Impl<App>", N), ("implOther", "::entrait::Impl<()>", N)]
+    elif prog in ("di-dyn", "di-dyn-borrow"):
+        # dynamic dependency inversion without async: `dyn NImpl<T>` reached through AsRef / Borrow
+        sel = "ref" if prog == "di-dyn" else "Borrow"
+        tr = "::core::convert::AsRef" if prog == "di-dyn" else "::core::borrow::Borrow"
+        meth = "as_ref" if prog == "di-dyn" else "borrow"
+        items = (f"#[::entrait::entrait(NImpl, delegate_by = {sel})]\npub trait {N} {{ fn m(&self, a: i32) -> i32; }}\npub struct X;\n"
+                 f"#[::entrait::entrait(ref)]\nimpl NImpl for X {{ pub fn m<D>(deps: &D, a: i32) -> i32 {{ a + 6 }} }}\npub struct App;\n"
+                 f"impl {tr}<dyn NImpl<Self>> for App {{ fn {meth}(&self) -> &(dyn NImpl<Self> + 'static) {{ &X }} }}\n")
+        run = f"let app = ::entrait::Impl::new(App); let r = ::std::format!(\"{{}}\", <::entrait::Impl<App> as {N}>::m(&app, 1));"
         probes = [("impl", "::entrait::Impl<App>", N), ("implOther", "::entrait::Impl<()>", N)]
     else:
         raise ValueError(prog)
